@@ -664,7 +664,12 @@ func pluginMain(specJSON string) {
 			if err != nil {
 				return nil, err
 			}
-			return &tls.Config{Certificates: []tls.Certificate{cert}, MinVersion: tls.VersionTLS12}, nil
+			// usable in both roles: brokered connections make the plugin a TLS client too
+			pool := x509.NewCertPool()
+			if pemBytes, err := os.ReadFile(certFile); err == nil {
+				pool.AppendCertsFromPEM(pemBytes)
+			}
+			return &tls.Config{Certificates: []tls.Certificate{cert}, RootCAs: pool, ServerName: "localhost", MinVersion: tls.VersionTLS12}, nil
 		}
 	}
 	if len(spec.PreAttach) > 0 {
@@ -741,8 +746,13 @@ func staticTLSFiles() (certFile, keyFile string, pool *x509.CertPool) {
 }
 
 func hostStaticTLS() *tls.Config {
-	_, _, pool := staticTLSFiles()
-	return &tls.Config{RootCAs: pool, ServerName: "localhost", MinVersion: tls.VersionTLS12}
+	certFile, keyFile, pool := staticTLSFiles()
+	cfg := &tls.Config{RootCAs: pool, ServerName: "localhost", MinVersion: tls.VersionTLS12}
+	// usable in both roles: for brokered callbacks the host is the TLS server
+	if cert, err := tls.LoadX509KeyPair(certFile, keyFile); err == nil {
+		cfg.Certificates = []tls.Certificate{cert}
+	}
+	return cfg
 }
 
 // dialUnix is a tiny helper used by several oracles.
